@@ -66,11 +66,14 @@ type qGen struct {
 	frags   []string
 	nfrag   int
 	varDefs map[string]string
-	vars    map[string]interface{}
-	feats   map[string]int
-	nvar    int
-	nalias  int
-	budget  int // fields still allowed in this document
+	// default values of some of the variables that are also given a value (so that the default
+	// never decides an answer, but has to travel with the definition all the same)
+	varDefault map[string]string
+	vars       map[string]interface{}
+	feats      map[string]int
+	nvar       int
+	nalias     int
+	budget     int // fields still allowed in this document
 }
 
 func (g *qGen) pct(p int) bool { return g.r.Intn(100) < p }
@@ -133,6 +136,17 @@ func (g *qGen) newVar(typ string, val interface{}) string {
 		g.feats["null-variable"]++
 	default:
 		g.vars[name] = val
+		if g.pct(30) {
+			switch strings.TrimSuffix(typ, "!") {
+			case "String":
+				g.varDefault[name] = "\"dflt\""
+			case "Boolean":
+				g.varDefault[name] = "true"
+			}
+			if g.varDefault[name] != "" {
+				g.feats["variable-default"]++
+			}
+		}
 	}
 	return name
 }
@@ -398,6 +412,7 @@ func (g *qGen) selections(t *TypeSpec, depth int, top bool) []string {
 
 func (g *qGen) operation(name string, mutation bool) string {
 	g.varDefs = map[string]string{}
+	g.varDefault = map[string]string{}
 	root := g.f.Type("Query")
 	kw := "query"
 	if mutation {
@@ -410,7 +425,14 @@ func (g *qGen) operation(name string, mutation bool) string {
 		g.feats["node"]++
 		idArg := fmt.Sprintf("%q", o.ID)
 		if g.k.Variables && g.pct(50) {
-			idArg = "$" + g.newVar("ID!", o.ID)
+			v := g.newVar("ID!", o.ID)
+			if _, bound := g.vars[v]; bound && g.pct(30) {
+				// a nullable variable with a default may stand where a non-null argument is expected
+				g.varDefs[v] = "ID"
+				g.varDefault[v] = fmt.Sprintf("%q", o.ID)
+				g.feats["defaulted-variable-in-non-null-position"]++
+			}
+			idArg = "$" + v
 		}
 		sels = append(sels, fmt.Sprintf("node(id: %s) { id ... on %s { %s } }", idArg, o.Type, strings.Join(g.selections(g.f.Type(o.Type), g.k.Depth-1, false), " ")))
 	}
@@ -421,6 +443,10 @@ func (g *qGen) operation(name string, mutation bool) string {
 	}
 	sort.Strings(names)
 	for _, n := range names {
+		if d := g.varDefault[n]; d != "" {
+			defs = append(defs, fmt.Sprintf("$%s: %s = %s", n, g.varDefs[n], d))
+			continue
+		}
 		defs = append(defs, fmt.Sprintf("$%s: %s", n, g.varDefs[n]))
 	}
 	vd := ""
@@ -441,6 +467,18 @@ func genQuery(r *rand.Rand, f *FedSpec, st *Store, k qKnobs) *GenQuery {
 	ops := []string{}
 	for i := 0; i < nops; i++ {
 		name := fmt.Sprintf("Op%d", i)
+		if i > 0 && k.MultiOp > 1 && g.pct(25) {
+			// GraphQL names are case sensitive: a later operation whose name is an earlier one's up to case
+			name = strings.ToLower(fmt.Sprintf("Op%d", g.r.Intn(i)))
+			for _, o := range q.Ops {
+				if o == name {
+					name = fmt.Sprintf("Op%d", i)
+				}
+			}
+			if name != fmt.Sprintf("Op%d", i) {
+				g.feats["operation-name-equal-up-to-case"]++
+			}
+		}
 		mut := k.Mutation && f.Type("Mutation") != nil && g.pct(30)
 		if mut {
 			g.feats["mutation"]++
